@@ -522,6 +522,7 @@ type runStats struct {
 	fresh              bool   // the run has a fresh companion run
 	stale              string // history clause (diagnostics): first PodGroup of the fresh run that the run's store lacks / differs from
 	frozenOwnerless    bool   // ... the same for a pod without owner reference (outside the clause)
+	finals             []kaiv2.PodGroup // the store at the end of the run (diagnostics of the order worlds)
 }
 
 // recTerm reconciles pod i on inst and returns the event term together with what was observed.
@@ -704,6 +705,7 @@ func execRun(in *intern, w *World, wk map[string]bool, evs []Event) (string, run
 		}
 	}
 	final, anns := finalTerms(in, inst)
+	st.finals = inst.PodGroups()
 	fresh := "None"
 	if lastNonRec >= 0 {
 		st.fresh = true
@@ -1764,12 +1766,21 @@ func Run(dir string, seed uint64, n int, tier string) error {
 	// API faults on the owner GETs: the scenario of seeded/C18-4 (README orders, transient answers, grant / revoke) and
 	// the same workload in two namespaces for known kinds and longer chains
 	faultCorpus(em, cr.Fork(77))
+	// one workload whose pods carry different queue / project labels, every reconcile order: the world of
+	// seeded/C18-5/README.md (PyTorchJob train, queue team-a; master without label, workers team-b), its twin under a
+	// kind the model covers, and the label combinations owner only / pods only / owner vs pods / pods among themselves
+	orderCorpus(em, cr.Fork(78))
 	defects := []string{"uid-mismatch", "missing-owner", "two-owners-above", "forbidden-top", "forbidden-direct", "user-annotation", "two-owner-refs"}
 	for i := 0; em.planned < n; i++ {
 		r := root.Fork(uint64(i))
 		if i%8 == 5 { // fault stream
 			fw, runs := genFaultWorld(r)
 			em.emitFaultWorld("faults", fw, runs)
+			continue
+		}
+		if i%8 == 2 { // order stream: one workload whose pods carry different queue / project labels
+			ow := genOrderWorld(r, maxPods)
+			em.emitOrderWorld(r, "order", ow)
 			continue
 		}
 		sh := shapes[i%len(shapes)]
@@ -1797,6 +1808,6 @@ func Run(dir string, seed uint64, n int, tier string) error {
 		em.emitWorld(r, origin, sh, w, defect)
 	}
 	em.flush()
-	out.Stats["rule"] = "worlds drawn from one splitmix64 stream: owner-chain shape (bare pod, Deployment>ReplicaSet, Job, StatefulSet, ReplicaSet, CRD, 6 skip-top-owner chains, pod-owned pod) x 1-3 sibling pods x labels/annotations/priority classes/defaults config map; every fifth world malformed (stale uid, missing owner, two owners, forbidden kinds, user-provided annotation); after a fixed corpus (every shape with 2 pods + the witnesses of the three repaired findings: owner without labels, Workflow-owned pod, stale sub-group label, forbidden direct owner, owners carrying a pod-group-name annotation + a StatefulSet whose PodGroup the scheduler stamps with kai.scheduler/last-start-timestamp / kai.scheduler/stale-podgroup-timestamp and an administrator labels, and whose owner then loses a label and an annotation + the history world: StatefulSet with three assigned pods whose owner then gets a priority class / preemptibility / labels / topology constraint, whose PodGroup is overwritten (minMember, priorityClassName, owner references, a computed annotation, a computed label removed), whose PodGroup is deleted, and all of it in one run + an owner-less pod whose PodGroup is deleted / overwritten); 1 world in 25 gives its pods a stale sub-group label. Events: reconcile pod i; foreign update of a PodGroup = queue / markUnschedulable / schedulingBackoff / node-pool label / queue label and/or labels and annotations of other actors set, changed, removed (the scheduler's two timestamp annotations, admin keys admin.example.com/note, admin.example.com/cost-center, team-owner; 1 in 10 overwrites a key the grouper computes); an owner object loses one or two label / annotation keys after the PodGroup was created; an owner object is EDITED so that computed values change (priorityClassName, kai.scheduler/preemptibility, queue, project, user, app, tier labels; topology, note, user, top-owner-metadata annotations; mostly the top owner, 1 in 3 any owner of the chain); grouper-owned fields of the stored PodGroup are overwritten (minMember, priorityClassName, preemptibility, topology constraint, owner references dropped or replaced, a sub-group added, labels / annotations it carries overwritten or removed); the PodGroup is deleted. Each world gives a CkGroup case (all reconcile orders, a run with repeats, runs with foreign updates, owner changes, edits, overwritten / deleted PodGroups between reconciles) and a CkIdem case (repeated reconciles; after a foreign update; after keys of other actors were put on / changed on / removed from the PodGroup, where also the FIRST reconcile must be silent; after an owner lost keys; history runs: every pod assigned, then an owner edit / an overwritten PodGroup / a deleted PodGroup (one run each) and a run mixing several of them with partial reconciles and foreign updates, then every pod again in any order, twice). Every run with another event than a reconcile comes with its FRESH run: the trailing reconciles executed by the real reconciler on a second, new store holding the final owner objects and the pods as created. non-trivial = at least one reconcile succeeded; distinct by (shape, pods, defect, check, config-map state, node-pool key configured). FAULT WORLDS (check=CkFault, one case per world; 12 deterministic worlds + every 8th world of the stream): 2-3 namespaces team-a/b/c, 2-4 workloads of 1-3 pods (at most 6 pods), the first two workloads with the SAME owner chain in two namespaces, chains drawn from foo-crd, foo>bar, replicaset>foo, skip:workflow>foo (custom kinds example.com/v1), statefulset, deployment-rs, job, widget>job, widget-crd, skip:workflow>statefulset, skip:dynamo>widget>replicaset, skip:trainjob>deployment-rs, pod-owned-by-pod; initial rule = every (namespace, kind) pair of the world refused with probability 1/4 (mostly at least one pair); runs, each on ONE pod-grouper instance and a new store: all reconcile orders (<= 3 pods) or 3 random orders under the standing rule, one run reconciling everybody twice, 1-2 runs of 4-10 random events (20% grant, 20% revoke, 20% reconcile with a one-shot fault on the n-th owner GET - 403 : 404 : 500 = 2 : 1 : 1, 1 in 8 on a kind never asked for -, 40% plain reconcile) followed by everybody twice; reference runs: for every (pod, answers) seen, one reconcile on a new instance and an empty store. Deterministic worlds: the world of seeded/C18-4/README.md (Foo team-b/train with train-0, train-1; Foo team-a/other with other-0) under the rule team-a/Foo refused with the five README orders and every order twice; the same world without rule and one-shot 403 / 404 / 500 answers; the same world with team-b/Foo refused at first, granted, revoked, granted; nine two-namespace worlds (statefulset, widget>job x2, foo>bar, skip:workflow>foo, skip:dynamo>widget>replicaset, deployment-rs, skip:trainjob>deployment-rs, foo>foo) with one kind refused in team-a, four orders and a run with grant / revoke / a one-shot 500. non-trivial fault case = at least one reconcile succeeded; distinct by (shapes, namespaces, pods)"
+	out.Stats["rule"] = "worlds drawn from one splitmix64 stream: owner-chain shape (bare pod, Deployment>ReplicaSet, Job, StatefulSet, ReplicaSet, CRD, 6 skip-top-owner chains, pod-owned pod) x 1-3 sibling pods x labels/annotations/priority classes/defaults config map; every fifth world malformed (stale uid, missing owner, two owners, forbidden kinds, user-provided annotation); after a fixed corpus (every shape with 2 pods + the witnesses of the three repaired findings: owner without labels, Workflow-owned pod, stale sub-group label, forbidden direct owner, owners carrying a pod-group-name annotation + a StatefulSet whose PodGroup the scheduler stamps with kai.scheduler/last-start-timestamp / kai.scheduler/stale-podgroup-timestamp and an administrator labels, and whose owner then loses a label and an annotation + the history world: StatefulSet with three assigned pods whose owner then gets a priority class / preemptibility / labels / topology constraint, whose PodGroup is overwritten (minMember, priorityClassName, owner references, a computed annotation, a computed label removed), whose PodGroup is deleted, and all of it in one run + an owner-less pod whose PodGroup is deleted / overwritten); 1 world in 25 gives its pods a stale sub-group label. Events: reconcile pod i; foreign update of a PodGroup = queue / markUnschedulable / schedulingBackoff / node-pool label / queue label and/or labels and annotations of other actors set, changed, removed (the scheduler's two timestamp annotations, admin keys admin.example.com/note, admin.example.com/cost-center, team-owner; 1 in 10 overwrites a key the grouper computes); an owner object loses one or two label / annotation keys after the PodGroup was created; an owner object is EDITED so that computed values change (priorityClassName, kai.scheduler/preemptibility, queue, project, user, app, tier labels; topology, note, user, top-owner-metadata annotations; mostly the top owner, 1 in 3 any owner of the chain); grouper-owned fields of the stored PodGroup are overwritten (minMember, priorityClassName, preemptibility, topology constraint, owner references dropped or replaced, a sub-group added, labels / annotations it carries overwritten or removed); the PodGroup is deleted. Each world gives a CkGroup case (all reconcile orders, a run with repeats, runs with foreign updates, owner changes, edits, overwritten / deleted PodGroups between reconciles) and a CkIdem case (repeated reconciles; after a foreign update; after keys of other actors were put on / changed on / removed from the PodGroup, where also the FIRST reconcile must be silent; after an owner lost keys; history runs: every pod assigned, then an owner edit / an overwritten PodGroup / a deleted PodGroup (one run each) and a run mixing several of them with partial reconciles and foreign updates, then every pod again in any order, twice). Every run with another event than a reconcile comes with its FRESH run: the trailing reconciles executed by the real reconciler on a second, new store holding the final owner objects and the pods as created. non-trivial = at least one reconcile succeeded; distinct by (shape, pods, defect, check, config-map state, node-pool key configured). FAULT WORLDS (check=CkFault, one case per world; 12 deterministic worlds + every 8th world of the stream): 2-3 namespaces team-a/b/c, 2-4 workloads of 1-3 pods (at most 6 pods), the first two workloads with the SAME owner chain in two namespaces, chains drawn from foo-crd, foo>bar, replicaset>foo, skip:workflow>foo (custom kinds example.com/v1), statefulset, deployment-rs, job, widget>job, widget-crd, skip:workflow>statefulset, skip:dynamo>widget>replicaset, skip:trainjob>deployment-rs, pod-owned-by-pod; initial rule = every (namespace, kind) pair of the world refused with probability 1/4 (mostly at least one pair); runs, each on ONE pod-grouper instance and a new store: all reconcile orders (<= 3 pods) or 3 random orders under the standing rule, one run reconciling everybody twice, 1-2 runs of 4-10 random events (20% grant, 20% revoke, 20% reconcile with a one-shot fault on the n-th owner GET - 403 : 404 : 500 = 2 : 1 : 1, 1 in 8 on a kind never asked for -, 40% plain reconcile) followed by everybody twice; reference runs: for every (pod, answers) seen, one reconcile on a new instance and an empty store. Deterministic worlds: the world of seeded/C18-4/README.md (Foo team-b/train with train-0, train-1; Foo team-a/other with other-0) under the rule team-a/Foo refused with the five README orders and every order twice; the same world without rule and one-shot 403 / 404 / 500 answers; the same world with team-b/Foo refused at first, granted, revoked, granted; nine two-namespace worlds (statefulset, widget>job x2, foo>bar, skip:workflow>foo, skip:dynamo>widget>replicaset, deployment-rs, skip:trainjob>deployment-rs, foo>foo) with one kind refused in team-a, four orders and a run with grant / revoke / a one-shot 500. non-trivial fault case = at least one reconcile succeeded; distinct by (shapes, namespaces, pods). ORDER WORLDS (check=CkOrder, one case per world; 45 deterministic worlds + every 8th world of the stream): ONE workload - PyTorchJob (kubeflow.org/v1, pytorchReplicaSpecs Master x1 / Worker x(n-1), pods with the kubeflow replica-type / replica-index labels; 1 world in 3) or StatefulSet, ReplicaSet, Widget CRD, Widget>ReplicaSet, SeldonDeployment - with 2-3 pods (4 in the thorough tier); the queue label (team-a / team-b) and, in half of the worlds, the project label (proj1 / proj2) are placed by one of 8 patterns each: none, owner only, some pods only (the workers or the master), all pods agreeing, owner vs pods, pods disagreeing among themselves with a silent owner, the same with a label on the owner, owner and pods agreeing; all other labels / annotations / priority class as in the structured worlds and equal among the siblings; runs: one per reconcile order (all permutations up to 3 pods, 6 otherwise), every pod in that order and once more in the same order, each run on a new instance and store. Deterministic worlds: the world of seeded/C18-5/README.md (owner train queue team-a, master without label, two workers team-b) as PyTorchJob, StatefulSet and Widget; for PyTorchJob and StatefulSet owners: owner queue absent / team-a x pods [-,b,b] [a,b,b] [b,b,b] [-,-,b] [b,-,-] [-,-,-] [a,b], owner project absent / proj1 x pods [-,p2,p2] [p1,p2,-] [p2,p2] with a node-pool label, and owner project proj1 with pods [-, queue b, queue b + project p2]. non-trivial order case = at least one reconcile succeeded; distinct by (shape, pods, label pattern, number of distinct queues the rule gives the pods)"
 	return out.Flush()
 }
